@@ -48,12 +48,12 @@ WORKERS = {"quick": 1, "thorough": 14}
 
 def gen_cases(ctx):
     rng = ctx.rng
-    for i in range(ctx.scale(500, 12000)):
+    for i in range(ctx.scale(500, 72000)):
         c = gen_history_case(rng, max_jobs=rng.choice([2, 3, 4]), max_machines=rng.choice([2, 3, 4]),
                              classes=gen.INSTANCE_CLASSES + ["flexible"])
         c["kind"] = "dispatcher" if i % 3 else "env"
         yield c
-    for i in range(ctx.scale(40, 800)):
+    for i in range(ctx.scale(40, 4800)):
         yield {"kind": "multi_env", "seed": rng.randrange(10**6), "instance": {"cls": "generated"},
                "policy": "random", "filter": None,
                "recirc": rng.random() < 0.3}
